@@ -280,14 +280,16 @@ class World:
             elif k == "cp":
                 t = self.toks[op[1]]
                 obs["was"] = t.status
+                tgt = self.obj if hasattr(self.obj, "reserve_put_cancel") else self.store  # conveyors: nodes cancel through event.resourcename
                 with call_as(env, self.actors[t.actor]):
-                    obs["ret"] = self.obj.reserve_put_cancel(t.ev)
+                    obs["ret"] = tgt.reserve_put_cancel(t.ev)
                 t.status = CANC
             elif k == "cg":
                 t = self.toks[op[1]]
                 obs["was"] = t.status
+                tgt = self.obj if hasattr(self.obj, "reserve_get_cancel") else self.store
                 with call_as(env, self.actors[t.actor]):
-                    obs["ret"] = self.obj.reserve_get_cancel(t.ev)
+                    obs["ret"] = tgt.reserve_get_cancel(t.ev)
                 t.status = CANC
             elif k == "step":
                 self.steps_this_instant += 1
@@ -378,7 +380,8 @@ class World:
                     return list(f())
                 except NotImplementedError:
                     continue
-        return None
+        r = getattr(self.store, "ready_items", None)   # the slotted conveyor publishes no accessor
+        return list(r) if r is not None else None
 
     def container_scan(self):
         """identity scan of the real containers (optional cross-check; None if not found)"""
